@@ -226,7 +226,18 @@ def rw_next(rng, src):
     return '\n'.join(out)
 
 
-def rw_labels(rng, src):
+def zero_candidates(src):
+    """the lines that may be renumbered to 0 without changing the meaning: every line but the target of an ON ERROR GOTO
+    (ON ERROR GOTO 0 switches error handling off: that is the language, not a spelling)"""
+    linenos = set(re.findall(r'^\s*(\d+)\s', src, re.M))
+    if '0' in linenos:
+        return []
+    handlers = set(re.findall(r'\bON\s+ERROR\s+GOTO\s+(\d+)', src, re.I))
+    refd = set(re.findall(r'\b(?:GOTO|GOSUB|RESTORE|RETURN|RESUME)\s+(\d+)', src, re.I)) & linenos
+    return sorted((refd or linenos) - handlers, key=int)
+
+
+def rw_labels(rng, src, zero=None):
     """rename every label / line number consistently (definitions and references)"""
     from .. import stmtfuzz
     kws = {w.lower() for k in stmtfuzz.KEYWORDS for w in k.split()} | {'cls', 'beep', 'end', 'stop', 'return', 'else', 'loop', 'wend', 'next',
@@ -237,7 +248,14 @@ def rw_labels(rng, src):
     for i, l in enumerate(sorted(labels)):
         mapping[l.lower()] = f'zl{i}x{rng.randint(0, 99)}'
     used = set()
+    # line number 0 is a line number like any other: every third rewriting gives it to one of the lines
+    if zero is None and linenos and '0' not in linenos and rng.random() < 0.34:
+        zero = rng.choice(zero_candidates(src) or [None])
     for n in sorted(linenos, key=int):
+        if n == zero:
+            mapping[n] = '0'
+            used.add('0')
+            continue
         while True:
             v = str(rng.randint(1, 60000))
             if v not in used and v not in linenos:
@@ -299,6 +317,12 @@ SPECIAL = [
     'remover remaining\nCALL remover(datum)\nPRINT remaining; datum; printer$; endx; iffy; fork; nextone; dox; loopy; elsewhere\n'
     'PRINT thenx; letter; callme; dimly; onward; gotox; notes; andy; orb; modx; stepper; asx; tox\nEND\n'
     'SUB remover (x)\n  x = x + 1\n  remnant = x\n  PRINT remnant\nEND SUB\n',
+    # every statement that names a line: the label rewriting renumbers them (one of them, every third time, to line number 0)
+    '10 DATA 1, 2\n20 DATA 30, 40\n30 READ a, b, c\n40 RESTORE 20\n50 READ d\n60 PRINT a; b; c; d\n70 GOSUB 200\n80 PRINT "back"\n90 GOTO 300\n'
+    '200 PRINT "sub"\n210 RETURN 250\n220 PRINT "not here"\n250 PRINT "to 250"\n260 GOTO 80\n300 ON ERROR GOTO 400\n310 x% = 1 \\ z%\n320 PRINT "end"\n330 END\n'
+    '400 PRINT ERR\n410 RESUME NEXT\n',
+    '5 k% = k% + 1\n10 IF k% < 3 THEN GOTO 5\n20 IF k% = 3 THEN GOTO 40 ELSE GOTO 50\n30 PRINT "skipped"\n40 PRINT "forty": k% = 9: GOTO 20\n50 PRINT "fifty"; k%\n60 DATA 7\n70 DATA 8\n'
+    '80 READ p%: RESTORE 70: READ q%: RESTORE 60: READ r%: PRINT p%; q%; r%\n',
 ]
 
 
@@ -351,12 +375,33 @@ def _task(t):
     return out
 
 
+def zero_sweep(_):
+    """every referenced line of the line-numbered programs becomes line number 0 in turn"""
+    import random
+    out = []
+    for src in SPECIAL:
+        for z in zero_candidates(src):
+            cur = rw_labels(random.Random(int(z)), src, zero=z)
+            for o, g in ((0, False), (2, True)):
+                s0, s1 = sections(src, o, g), sections(cur, o, g)
+                beh = None
+                if s0 != s1 and s1[0] == 'ok' and s0[0] == 'ok':
+                    r0 = real.run_bytes(real.try_compile(src, o, g)[2], inputs=[], max_ticks=20000)
+                    r1 = real.run_bytes(real.try_compile(cur, o, g)[2], inputs=[], max_ticks=20000)
+                    beh = (r0.outcome, r0.trace) == (r1.outcome, r1.trace)
+                out.append((src, cur, ['labels', f'line {z} becomes line 0'], o, g, s0 == s1, beh, s1[0] if s0[0] == 'ok' else 'ok'))
+    return {'edits': [], 'meta': out}
+
+
 def run(chk):
     rng = chk.rng
     chk.regen_and_build(LEAN_MODULE)
     chk.audit(LEAN_MODULE, REQUIRED)
     tasks = [(rng.randrange(1 << 30), 'x') for _ in range(chk.n(32, 500))]
     res = real.pmap(task, tasks)
+    zs = real.big_frame(lambda: zero_sweep(None))
+    chk.stats['line-number-0-sweep'] = {'cases': len(zs['meta']), 'disagree': 0, 'identical_modules': sum(1 for m in zs['meta'] if m[5])}
+    res = list(res) + [zs]
     reqs = []
     pairs = []
     for out in res:
